@@ -6,6 +6,7 @@ package main
 // fall-back, so renaming an internal function does not raise an alarm.
 
 import (
+	"go/token"
 	"go/types"
 
 	"golang.org/x/tools/go/ssa"
@@ -159,15 +160,18 @@ func (b *Body) resolveRole(role string) *ssa.Function {
 			if !sigHas(f, []string{"[]byte"}, []string{"bool"}) || f.Signature.Params().Len() != 1 {
 				return false
 			}
-			// the one the apply function consults on its document parameter
-			if ai := b.findApply(); ai != nil {
-				for _, g := range b.libCalleesOf(ai.fn) {
-					if g == f {
-						return true
+			// the predicate that looks for an opening bracket: it compares a byte with '['
+			found := false
+			allInstrs(f, func(i ssa.Instruction) {
+				if bo, ok := i.(*ssa.BinOp); ok && (bo.Op == token.EQL || bo.Op == token.NEQ) {
+					for _, v := range []ssa.Value{bo.X, bo.Y} {
+						if n, ok := intConst(v); ok && n == '[' {
+							found = true
+						}
 					}
 				}
-			}
-			return false
+			})
+			return found
 		})
 	case "validateOperation":
 		return pick(all, func(f *ssa.Function) bool {
@@ -181,7 +185,6 @@ func (b *Body) resolveRole(role string) *ssa.Function {
 	return nil
 }
 
-
 // roleNameOf: the historical role name of fn if it plays one of the resolved roles, else its own name.
 func (b *Body) roleNameOf(fn *ssa.Function) string {
 	for _, role := range []string{"pruneNulls", "pruneAryNulls", "merge", "mergeDocs", "deepCopy", "ensurePathExists", "doMergePatch"} {
@@ -191,7 +194,6 @@ func (b *Body) roleNameOf(fn *ssa.Function) string {
 	}
 	return fn.Name()
 }
-
 
 // equalRole: the recursive structural comparison of two nodes: a method of
 // *lazyNode that takes another *lazyNode, returns bool and calls itself.
